@@ -91,6 +91,8 @@ func (in *c05Instance) observe(input string, abort int) (out string) {
 					t := in.tok.NextToken()
 					b.WriteString(tok{t.Type(), t.Value(), t.Line(), t.Column()}.String() + " ")
 				}
+				// leave the iteration with a token parked by a has-next query
+				fmt.Fprintf(&b, "more=%v", in.tok.HasNextToken())
 				out = b.String()
 				return
 			}
